@@ -51,7 +51,14 @@ fn eval(vm: &mut Vm) -> Result<VCell, Error> {
     let mut lambda = Lambda::new(vec![]);
     lambda.set_top_level();
     lambda.emit(OpCode::Enter);
-    vm.compile(&mut lambda, true, &expr)?;
+    // The expression is a top-level form: a begin splices as in compile_runnable.
+    let forms = vm.splice_body(&Cell::new_list(vec![expr.clone()]))?;
+    if forms.is_empty() {
+        vm.compile(&mut lambda, true, &expr)?;
+    }
+    for (idx, form) in forms.iter().enumerate() {
+        vm.compile(&mut lambda, idx + 1 == forms.len(), form)?;
+    }
     lambda.emit(OpCode::Ret);
     let lambda = vm.heap.put(lambda);
 
